@@ -1176,7 +1176,11 @@ def evaluate_molecule(case, case_id, out, pend, R, n):
         try:
             ref = qcel.models.Molecule(symbols=syms, geometry=R, fix_com=True, fix_orientation=True)
             Rg = np.array(ref.geometry)
-            do_test = bool(noncollinear and (not perm_on or case["fam"] == "generic") and not (case["mirrored"] and case["fam"] != "generic"))
+            # the rotation/shift are determined only when the atom map is: for a symmetric molecule a permutation search
+            # (shuffled atoms, or run_resorting=True on an unshuffled copy) may legitimately return a symmetry-equivalent map
+            # with a different rotation and RMSD 0 (seen with the default hungarian_uno search once networkx was available)
+            searched = perm_on or bool(fl.get("run_resorting", False))
+            do_test = bool(noncollinear and (not searched or case["fam"] == "generic") and not (case["mirrored"] and case["fam"] != "generic"))
             cmol, sdata = ref.scramble(do_shift=sh, do_rotate=A.tolist(), do_resort=(pm if perm_on else False),
                                        do_mirror=case["mirrored"], do_test=do_test, run_resorting=fl.get("run_resorting", False), verbose=0)
             amol, adata = cmol.align(ref, atoms_map=not perm_on, mols_align=True, run_mirror=fl.get("run_mirror", False),
